@@ -542,3 +542,44 @@ theorem foldl_rankPass_length (rs : List String) (es : List Entry) :
   | cons r rs ih => simp only [List.foldl_cons]; rw [ih, rankPass_length]
 
 end Arrai.C04
+
+namespace Arrai.C04
+open Spec Impl
+
+theorem isSubset_minus (a b : Names) : isSubset (minus a b) a = true := by
+  rw [isSubset_iff]
+  intro n hn
+  rw [contains_minus'] at hn
+  cases h : a.contains n
+  · rw [h] at hn; simp at hn
+  · rfl
+
+/-- `NestExpr.Eval` (both `|attrs|` and the inverse form `~|attrs|`) -/
+theorem nestExpr_refines (inverse : Bool) (a : Rep) (relAttrs attrs : Names) (attr : String) (wa : RepWF a)
+    (ha : relationAttrs a = some relAttrs) (hsub : isSubset attrs relAttrs = true)
+    (hne : inverse = true → (minus relAttrs attrs).isEmpty = false)
+    (hclash : (minus relAttrs (if inverse then minus relAttrs attrs else attrs)).contains attr = false) :
+    ∃ res, nestExpr inverse a attrs attr = .ok res ∧
+      den res = Spec.nest (den a) (if inverse then minus relAttrs attrs else attrs) attr := by
+  unfold nestExpr
+  by_cases ht : Impl.isTrue a = true
+  · simp only [ht, Bool.not_true, Bool.false_eq_true, if_false, ha, hsub]
+    cases inverse with
+    | false =>
+      simp only [Bool.false_eq_true, if_false, Bool.false_and] at hclash ⊢
+      rw [hclash]
+      simp only [Bool.false_eq_true, if_false]
+      exact nest_refines a relAttrs attrs attr wa ha hsub hclash
+    | true =>
+      simp only [if_true, Bool.true_and] at hclash ⊢
+      rw [hne rfl, hclash]
+      simp only [Bool.false_eq_true, if_false]
+      exact nest_refines a relAttrs (minus relAttrs attrs) attr wa ha (isSubset_minus _ _) hclash
+  · have ht' : Impl.isTrue a = false := by cases h : Impl.isTrue a <;> simp_all
+    simp only [ht', Bool.not_false, if_true]
+    refine ⟨a, rfl, ?_⟩
+    unfold den
+    rw [isTrue_false_enumerate ht']
+    rfl
+
+end Arrai.C04
